@@ -1,7 +1,130 @@
-(** C14 — Git indexing captures exactly the indexed branch trees. (first version) *)
-From ZV Require Import Lib.Base Model.DirWalk Model.Catfile Model.GitWalk.
+(** C14 — Git indexing captures exactly the indexed branch trees.
+    Models: Model/GitWalk.v (CollectFiles / handleEntry merging, document creation on both blob-reading paths),
+    Model/Catfile.v (catfileReader.Next / Read over the response stream, contentSlab.alloc).
+    Proofs: Proofs/GitWalk.v, Proofs/Catfile.v, Proofs/GitPaths.v.
+    Trusted boundary: go-git (a branch = the entry list its recursive tree walker yields), the cat-file output
+    format, bufio (any hand-over amount >= 1 per Read), the glob matchers (verdict functions, universally
+    quantified), index.Builder's round trip. Submodule recursion is not configured (Options.Submodules = false). *)
+From ZV Require Import Lib.Base Model.DirWalk Model.Catfile Model.GitWalk Proofs.DirWalk Proofs.Catfile Proofs.GitWalk Proofs.GitPaths.
 
-Theorem C14_handle_entry_skips_non_files : forall ig br fs e,
-  is_file_mode (ge_mode e) = false -> handle_entry ig br fs e = fs.
-Proof. intros ig br fs e H. unfold handle_entry. rewrite H. reflexivity. Qed.
-Print Assumptions C14_handle_entry_skips_non_files.
+(** One entry per distinct (path, blob) ... *)
+Theorem C14_collect_one_per_key : forall bs, NoDup (map fst (collect bs)).
+Proof. exact collect_nodup. Qed.
+Print Assumptions C14_collect_one_per_key.
+
+(** ... and its branch list is exactly the list of occurrences of the pair as a regular / executable / symlink
+    entry that the ignore file of that branch's tree does not match, in branch order (all branch lists, all
+    trees, all ignore verdict functions). *)
+Theorem C14_collect_spec : forall bs k brs,
+  In (k, brs) (collect bs) <-> brs = occs k bs /\ brs <> [].
+Proof. exact collect_spec. Qed.
+Print Assumptions C14_collect_spec.
+
+(** In a repository (a path occurs at most once per tree) the branch list is the list of the branches whose
+    tree has the pair: no branch twice, none missing. *)
+Theorem C14_collect_branches_exact : forall bs k brs,
+  Forall (fun b => NoDup (map ge_path (gb_entries b))) bs ->
+  In (k, brs) (collect bs) -> brs = map gb_name (filter (branch_has k) bs).
+Proof. exact collect_branches_exact. Qed.
+Print Assumptions C14_collect_branches_exact.
+
+(** No document for a path excluded by the ignore file, for a tree, or for a submodule link: a pair that only
+    occurs with non-file modes is not collected ... *)
+Theorem C14_no_submodule_docs : forall bs path id,
+  (forall b e, In b bs -> In e (gb_entries b) -> ge_path e = path -> ge_id e = id -> is_file_mode (ge_mode e) = false) ->
+  ~ In (path, id) (map fst (collect bs)).
+Proof. exact no_submodule_docs. Qed.
+Print Assumptions C14_no_submodule_docs.
+
+(** ... and every branch listed for a collected pair has a file-mode entry for it that its ignore file does not match. *)
+Theorem C14_collect_sources : forall bs k brs,
+  In (k, brs) (collect bs) ->
+  forall br, In br brs ->
+  exists b e, In b bs /\ gb_name b = br /\ In e (gb_entries b) /\ is_file_mode (ge_mode e) = true /\
+              gb_ignored b (ge_path e) = false /\ (ge_path e, ge_id e) = k.
+Proof. exact collect_sources. Qed.
+Print Assumptions C14_collect_sources.
+
+(** The cat-file reader, on every well-formed response stream and EVERY plan of Next / Read(len) calls with
+    every chunking of the pipe (hand-over amounts >= 1), behaves as the abstract machine [abs_run] that keeps
+    "the undelivered rest of the current blob" and "the responses not yet announced" ... *)
+Theorem C14_catfile_stream_refines : forall rs ops,
+  Forall wf_resp rs -> wf_ops ops -> cf_run (cf_init (encode rs)) ops = abs_run (None, rs) ops.
+Proof. exact catfile_stream_refines. Qed.
+Print Assumptions C14_catfile_stream_refines.
+
+(** ... hence, in client terms: the i-th Next announces the i-th response (size / missing / excluded), the bytes
+    read between it and the following Next are a prefix of that blob, the whole blob once a Read reported EOF
+    (full reads, partial reads and skips interleaved arbitrarily), and after the last response Next reports EOF. *)
+Theorem C14_catfile_delivers_blob_bytes : forall rs ops,
+  Forall wf_resp rs -> wf_ops ops -> segs_ok rs (segs (cf_run (cf_init (encode rs)) ops) None).
+Proof. exact catfile_delivers. Qed.
+Print Assumptions C14_catfile_delivers_blob_bytes.
+
+(** io.ReadFull right after Next returns the blob and leaves the reader at the next header. *)
+Theorem C14_read_full_whole_blob : forall fuel u rs avail acc,
+  (forall i, 1 <= avail i) -> u <> [] -> length u <= fuel ->
+  read_full (conc (Some u, rs)) (length u) avail fuel acc = (conc (None, rs), Some (acc ++ u)).
+Proof. exact read_full_spec. Qed.
+Print Assumptions C14_read_full_whole_blob.
+
+(** The go-git and the cat-file reading paths produce the same documents (same skip decisions), when every
+    collected blob is in the object store: for every SizeMax, LargeFiles verdict, branch list, pipe chunking. *)
+Theorem C14_paths_agree : forall size_max large_ok blobs avail bs,
+  (forall i, 1 <= avail i) ->
+  (forall f, In f (collect bs) -> present blobs f) ->
+  (forall id c, lookup_blob id blobs = Some c -> (Z.of_nat (length c) <= max_int)%Z) ->
+  docs_catfile size_max large_ok blobs avail bs = Ok (docs_gogit size_max large_ok blobs bs).
+Proof. exact paths_agree. Qed.
+Print Assumptions C14_paths_agree.
+
+(** Slab slices never alias: the regions handed out by any allocation sequence are pairwise disjoint, shared ones
+    lie inside the slab, and each has exactly the requested length (= its capacity: 3-index slice). *)
+Theorem C14_slab_disjoint : forall cap ns,
+  ForallOrdPairs disjoint (slab_run (slab_new cap) ns) /\
+  Forall (fun r => rg_shared r = true -> rg_off r + rg_len r <= cap) (slab_run (slab_new cap) ns) /\
+  map rg_len (slab_run (slab_new cap) ns) = ns.
+Proof. intros cap ns. destruct (slab_disjoint cap ns) as [H1 H2]. split; [exact H1|]. split; [exact H2|apply slab_run_lengths]. Qed.
+Print Assumptions C14_slab_disjoint.
+
+(** ---------- non-vacuity *)
+
+(* main: a.go(1) b.go(2) sub(gitlink) docs/x(1, ignored on main) ; dev: a.go(1) b.go(3) docs/x(1) *)
+Example C14_collect_nonvacuous :
+  let e p m i := {| ge_path := p; ge_mode := m; ge_id := i |} in
+  let a := [97;46;103;111]%N in let b := [98;46;103;111]%N in let sub := [115;117;98]%N in let dx := [100;111;99;115;47;120]%N in
+  let main := {| gb_name := [109]%N; gb_entries := [e a GRegular 1%N; e b GExec 2%N; e [100;111;99;115]%N GDir 9%N; e dx GRegular 1%N; e sub GSubmodule 7%N];
+                 gb_ignored := fun p => bytes_eqb p dx |} in
+  let dev := {| gb_name := [100]%N; gb_entries := [e a GSymlink 1%N; e b GRegular 3%N; e dx GRegular 1%N]; gb_ignored := fun _ => false |} in
+  collect [main; dev] = [ ((a, 1%N), [[109]%N; [100]%N]); ((b, 2%N), [[109]%N]); ((b, 3%N), [[100]%N]); ((dx, 1%N), [[100]%N]) ]
+  /\ Forall (fun b => NoDup (map ge_path (gb_entries b))) [main; dev].
+Proof.
+  split; [vm_compute; reflexivity|].
+  repeat constructor; cbn; intuition discriminate.
+Qed.
+
+(* stream "1 blob 3\nabc\n2 missing\n3 blob 0\n\n": read 2 bytes, skip the rest, hit the missing entry, read past the empty blob *)
+Example C14_catfile_nonvacuous :
+  let rs := [ RPresent [49]%N s_blob [51]%N [97;98;99]%N; RMissing [50]%N; RPresent [51]%N s_blob [48]%N [] ] in
+  let ops := [ONext; ORead 2 5; ONext; ORead 4 1; ONext; ORead 4 4; ONext] in
+  Forall wf_resp rs /\ wf_ops ops /\
+  cf_run (cf_init (encode rs)) ops =
+    [OutNext (NEntry 3); OutRead [97;98]%N RNil; OutNext NMissing; OutRead [] REOF; OutNext (NEntry 0); OutRead [] REOF; OutNext NEOF].
+Proof.
+  split; [|split; [|vm_compute; reflexivity]].
+  - repeat constructor; cbn; try discriminate; try (intro H; cbn in H; intuition discriminate); try reflexivity.
+  - repeat constructor.
+Qed.
+
+Example C14_paths_agree_nonvacuous :
+  let e p m i := {| ge_path := p; ge_mode := m; ge_id := i |} in
+  let main := {| gb_name := [109]%N; gb_entries := [e [97]%N GRegular 1%N; e [98]%N GExec 2%N; e [99]%N GRegular 3%N]; gb_ignored := fun _ => false |} in
+  let blobs := [(1%N, [104;101;108;108;111]%N); (2%N, []); (3%N, [120;120;120;120;120;120;120;120]%N)] in
+  docs_catfile 6 (fun _ => false) blobs (fun _ => 2) [main] = Ok (docs_gogit 6 (fun _ => false) blobs [main])
+  /\ map gd_content (docs_gogit 6 (fun _ => false) blobs [main]) = [[104;101;108;108;111]%N; []; marker_too_large].
+Proof. vm_compute. split; reflexivity. Qed.
+
+Example C14_slab_nonvacuous :
+  map (fun r => (rg_buf r, rg_off r, rg_len r)) (slab_run (slab_new 10) [4; 4; 4; 20; 0; 10])
+  = [(0, 0, 4); (0, 4, 4); (1, 0, 4); (2, 0, 20); (1, 4, 0); (3, 0, 10)].
+Proof. vm_compute. reflexivity. Qed.
